@@ -68,7 +68,9 @@ func c29Bytes(p *string) []byte {
 }
 
 func c29Keys() []*string {
-	ks := []string{"subject/a", "subject/b", "substitute/a", "a", "subject", "subject/", "substitute/", "subjectX/a"}
+	// "substitute/subject/a" and "x/subject/a" carry a prefix at a position other than 0 (a router that
+	// searches for the prefix instead of anchoring it sends them to the wrong store)
+	ks := []string{"subject/a", "subject/b", "substitute/a", "a", "subject", "subject/", "substitute/", "subjectX/a", "substitute/subject/a", "x/subject/a"}
 	out := make([]*string, 0, len(ks)+1)
 	for i := range ks {
 		out = append(out, &ks[i])
@@ -606,7 +608,7 @@ func (r *c29Run) finish() int {
 		"evaluations":         r.evals,
 		"distinct_nontrivial": r.nontrivial,
 		"sequences":           r.sequences,
-		"rule":                "part A: every operation sequence of length <= individually_enumerated_max_len over the alphabet (6 operation kinds x 9 keys, all 81 (start,end) pairs for both iteration directions), each enumerated exactly once on fresh stores; part B: explicit-state search de-duplicated on the contents of both stores, run to its fixpoint, each reachable state expanded on live stores with every operation and every pair of operations (sequences no longer than part A's bound are not counted again). evaluations counts checked operation applications: the returned value is compared with the two-map reference and both underlying real stores are compared with the reference maps after every single operation. A sequence counts as non-trivial when its last operation returns routed data (non-nil get, has=true, non-empty iteration) or changes the subject store",
+		"rule":                "part A: every operation sequence of length <= individually_enumerated_max_len over the alphabet (6 operation kinds x 11 keys, all 121 (start,end) pairs for both iteration directions), each enumerated exactly once on fresh stores; part B: explicit-state search de-duplicated on the contents of both stores, run to its fixpoint, each reachable state expanded on live stores with every operation and every pair of operations (sequences no longer than part A's bound are not counted again). evaluations counts checked operation applications: the returned value is compared with the two-map reference and both underlying real stores are compared with the reference maps after every single operation. A sequence counts as non-trivial when its last operation returns routed data (non-nil get, has=true, non-empty iteration) or changes the subject store",
 		"samples":             r.samples,
 		"exhaustive":          !r.capped,
 		"outcomes":            r.outcomes,
@@ -715,7 +717,17 @@ func TestVerifC29(t *testing.T) {
 		r.extra["alphabet_ops"] = len(ops)
 		r.extra["written_values"] = values
 		r.extra["individually_enumerated_max_len"] = lenA
-		r.extra["keys"] = []string{"subject/a", "subject/b", "substitute/a", "a", "subject", "subject/", "substitute/", "subjectX/a", "<nil>"}
+		{
+			var names []string
+			for _, k := range c29Keys() {
+				if k == nil {
+					names = append(names, "<nil>")
+				} else {
+					names = append(names, *k)
+				}
+			}
+			r.extra["keys"] = names
+		}
 		root := &c29Ref{subject: c29InitialSubject(), substitute: c29InitialSubstitute()}
 		// part A: every sequence individually, no state de-duplication
 		for d := 1; d <= lenA; d++ {
